@@ -1,5 +1,5 @@
 (* Props/C02.v -- C02: composition law.  Property theorems only. *)
-From AT Require Import Num Vec Aff PTree Cells Abs ArenaEval ArenaCompose.
+From AT Require Import Num Vec Aff PTree Cells Abs ArenaEval ArenaCompose ArenaComposeAbs.
 
 (* f.compose(g) without pruning: h(x) is defined exactly when f(x) and g(f(x)) are, and then h(x) = g(f(x));
    every branching factor (children lists of any length), partial operands (U), boundary inputs. *)
@@ -46,6 +46,18 @@ Proof. exact arena_compose_extends. Qed.
 Theorem C02_frame_one_terminal : forall alloc K s L a i a', fresh_alloc alloc ->
   arena_compose_at alloc K s L a i = Some a' -> untouched a a' i.
 Proof. exact arena_compose_at_untouched. Qed.
+(* the arena-level composition REFINES the lifted tree: if the receiver's arena abstracts to t, the run abstracts to
+   lift s t L -- every schema, every K, every allocator returning unoccupied keys, the code's order of terminals;
+   and it returns Ok (no unwrap fails) whenever lhs has K slots per decision with at least one child and the leaves
+   of the receiver have K empty slots (what the arena invariant of C12 gives) *)
+Theorem C02_arena_refines_lift : forall alloc K s L a a', fresh_alloc alloc -> karity K L -> L <> U -> leaves_empty K a ->
+  arena_compose alloc K s L a = Some a' ->
+  forall fuel i t, abs_at fuel a i = Some t -> exists F, abs_at F a' i = Some (lift s t L).
+Proof. exact arena_compose_abs. Qed.
+Theorem C02_arena_compose_ok : forall alloc K s L a, fresh_alloc alloc -> karity K L -> L <> U -> leaves_empty K a ->
+  exists a', arena_compose alloc K s L a = Some a'.
+Proof. exact arena_compose_some. Qed.
+
 (* the arena-level run on an arena with a freed slot: Ok, abstracts to the lifted tree, indices / states as claimed *)
 Example C02_frame_nonvacuous :
   fresh_alloc next_key /\
@@ -81,4 +93,6 @@ Print Assumptions C02_evaluate_is_eval.
 Print Assumptions C02_find_terminal_is_route.
 Print Assumptions C02_frame.
 Print Assumptions C02_frame_one_terminal.
+Print Assumptions C02_arena_refines_lift.
+Print Assumptions C02_arena_compose_ok.
 Print Assumptions C02_frame_nonvacuous.
